@@ -71,6 +71,7 @@ def bounds(tier):
 def units(tier, seed):
   us = [dict(part='leaf', dtype=n) for n in T.all_dtype_names()]
   us.append(dict(part='pyleaf'))
+  us.append(dict(part='byteorder'))
   n2 = len(T.trees(2))
   step = 200 if tier == 'quick' else 400
   for lo in range(0, n2, step):
@@ -129,6 +130,8 @@ def run_unit(unit):
     _run_dtype(res, unit['dtype'], seed, tier)
   elif part == 'pyleaf':
     _run_pyleaves(res, seed, tier)
+  elif part == 'byteorder':
+    _run_byteorder(res, seed)
   elif part == 'tree2':
     specs = _trees2()[unit['lo']:unit['hi']]
     for i, spec in enumerate(specs):
@@ -486,3 +489,43 @@ def _run_tree(res, spec, seed, tier, sample=False):
                                           for p, nd in T.positions(spec)
                                           for n, _, _ in T.edits(nd)][:24],
                                bytes=None if b0 is _FAILED else len(b0)))
+
+
+def _run_byteorder(res, seed):
+  """Non-native byte order: the restored array must hold the same values with a dtype of the
+  same kind and item size (the byte order of the stored copy is not part of the statement)."""
+  ser = _S['ser']
+  other = '>' if np.dtype('<i4').isnative else '<'
+  for code in ('i2', 'u4', 'i8', 'f2', 'f4', 'f8', 'c8', 'c16'):
+    for shape in T.SHAPES:
+      for layout in ('C', 'F'):
+        n = int(np.prod(shape)) if shape else 1
+        base = (np.arange(n) + 3 + seed % 3).astype(code).reshape(shape)
+        a = base.astype(np.dtype(other + code))
+        if layout == 'F' and a.ndim >= 2:
+          a = np.asfortranarray(a)
+        for th in (1, 7, _S['default_th']):
+          key = f'byteorder|{other}{code}|{list(shape)}|{layout}|th={th}'
+          res['evals'] += 1
+          try:
+            with _Threshold(th):
+              r = ser.from_bytes({'a': a}, ser.to_bytes({'a': a}))['a']
+          except Exception as e:  # noqa
+            core.violation(res, 'byteorder-raises|' + key, f'{type(e).__name__}: {e}',
+                           dict(dtype=other + code, shape=list(shape)))
+            continue
+          r = np.asarray(r)
+          ok = (r.shape == a.shape and r.dtype.kind == a.dtype.kind and
+                r.dtype.itemsize == a.dtype.itemsize and
+                np.array_equal(r.astype(code), base))
+          if not ok:
+            core.violation(res, 'byteorder|' + key,
+                           'an array with non-native byte order does not round-trip: values '
+                           'differ after from_bytes(to_bytes(.))',
+                           dict(dtype=other + code, shape=list(shape), layout=layout, th=th),
+                           observed=r.tolist() if r.size < 8 else None,
+                           expected=base.tolist() if base.size < 8 else None)
+          core.outcome(res, 'byteorder:' + ('ok' if ok else 'corrupt'))
+          if n > 1:
+            res['nontrivial'].append(core.h(key))
+  res['samples'].append(dict(part='byteorder', dtypes=[other + c for c in ('i2', 'f4', 'c8')]))
